@@ -2011,6 +2011,44 @@ class Ev:
             return ListV([x for a in args for x in self.iterate(a, e)])
         if name in ("itertools.chain.from_iterable", "chain.from_iterable"):
             return ListV([x for a in self.iterate(args[0], e) for x in self.iterate(a, e)])
+        if name == "copy.deepcopy" and len(args) >= 1:
+            memo = {}
+
+            def deep(v):
+                if id(v) in memo:
+                    return memo[id(v)]
+                if isinstance(v, Lenient):
+                    return v
+                if isinstance(v, Obj):
+                    if getattr(v, "ext_types", None):
+                        return v  # geometry of an outside library, immutable: the copy is as good as the original
+                    o = Obj(v.cls, {}, v.closed, label=("copy of %r" % v))
+                    o.copied_from = v
+                    o.dyn = dict(getattr(v, "dyn", {}) or {})
+                    memo[id(v)] = o
+                    for k, x in v.fields.items():
+                        o.fields[k] = deep(x)
+                    return o
+                if isinstance(v, NamedTupV):
+                    return NamedTupV(v.cls, v.names, [deep(x) for x in v.items])
+                if isinstance(v, ListV):
+                    o = type(v)([])
+                    memo[id(v)] = o
+                    o.items = [deep(x) for x in v.items]
+                    if hasattr(v, "ext_types"):
+                        o.ext_types = v.ext_types
+                    return o
+                if isinstance(v, DictV):
+                    o = DictV({})
+                    memo[id(v)] = o
+                    for k, x in v.d.items():
+                        o.d[k] = deep(x)
+                    if getattr(v, "default", None) is not None:
+                        o.default = v.default
+                    return o
+                return v
+
+            return deep(args[0])
         if name in ("copy.copy", "copy.deepcopy") and len(args) >= 1:
             v = args[0]
             if isinstance(v, Obj):
